@@ -179,6 +179,10 @@ class RealDir:
             return {"r": _err(e)}
         raise ValueError(k)
 
+    def dirs(self):
+        """existence of the not_completed/ and logs/ sub-directories"""
+        return [os.path.isdir(os.path.join(self.path, "not_completed")), os.path.isdir(os.path.join(self.path, "logs"))]
+
     def validate(self):
         return _validate(self.ds)
 
@@ -287,6 +291,8 @@ def run_real(ctx, kind, tag, sfx, mode, ops, want_validate=False):
     try:
         for op in ops:
             r = store.apply(op)
+            if kind == "dir":
+                r["d"] = store.dirs()
             if want_validate and op[0] == "obs" and "obs" in r:
                 r["validate"] = store.validate()
             out.append(r)
@@ -296,9 +302,29 @@ def run_real(ctx, kind, tag, sfx, mode, ops, want_validate=False):
 
 
 # --------------------------------------------------------------------------
+# behaviour probe: does a read-only store create directories (code as it is) or not (proposed repair)
+# --------------------------------------------------------------------------
+_CFG = {}
+
+
+def detect_cfg(ctx):
+    """{'ro_open': bool, 'ro_write': bool}: True = the repaired behaviour (no mkdir on a read-only store)"""
+    if "v" in _CFG:
+        return _CFG["v"]
+    h = [["nc", "a", "1"], ["drop", ""], ["reopen", "r"], ["nc", "b", "2"]]
+    r = run_real(ctx, "dir", "probe", "fasta", "w", h)
+    ro_open = not r[2]["d"][0]
+    # write_not_completed on a read-only store is only observable when the constructor did not create the directory
+    ro_write = ro_open and not r[3]["d"][0]
+    _CFG["v"] = dict(ro_open=ro_open, ro_write=ro_write)
+    ctx.notes.append(f"code variant detected by behaviour (read-only store creates no directory): {_CFG['v']}")
+    return _CFG["v"]
+
+
+# --------------------------------------------------------------------------
 # history generators
 # --------------------------------------------------------------------------
-def gen_history(rng, kind, sfx, pool, nmax=40, p_obs=0.25, every_obs=False, synonyms=True):
+def gen_history(rng, kind, sfx, pool, nmax=40, p_obs=0.25, every_obs=False, synonyms=True, subdirs=0.05, log_ids=None):
     n = rng.randint(1, nmax)
     mode = rng.choice(["w", "w", "a"])
     ids = rng.sample(pool, min(len(pool), rng.randint(2, 6)))
@@ -313,13 +339,16 @@ def gen_history(rng, kind, sfx, pool, nmax=40, p_obs=0.25, every_obs=False, syno
         spelled = uid
         if synonyms and rng.random() < (0.3 if kind == "sql" else 0.08) and (kind == "sql" or "." not in uid):
             spelled = ("results/" if kind == "sql" else "sub/") + uid
+        elif synonyms and kind == "dir" and subdirs and rng.random() < subdirs:
+            # an identifier that starts with one of the store's own sub-directories
+            spelled = rng.choice(["logs/", "not_completed/", "md5/"]) + uid
         if r < 0.33:
             op = ["w", spelled, data]
         elif r < 0.62:
             op = ["nc", spelled, data]
         elif r < 0.70:
-            lg = rng.choice(["run.log", "l2", uid])
-            op = ["log", ("logs/" + lg) if kind == "sql" and synonyms and rng.random() < 0.3 else lg, data]
+            lg = rng.choice(log_ids or ["run.log", "l2", uid])
+            op = ["log", ("logs/" + lg) if kind == "sql" and synonyms and rng.random() < 0.3 else lg, logtext(data)]
         elif r < 0.82:
             op = ["drop", uid if rng.random() < 0.75 else ""]
         elif r < 0.93:
@@ -340,10 +369,30 @@ def gen_history(rng, kind, sfx, pool, nmax=40, p_obs=0.25, every_obs=False, syno
     return mode, ops
 
 
-def _truncate(real):
-    """index after which a history is no longer compared (FileNotFoundError inside a drop loop)"""
-    for i, r in enumerate(real):
+def logtext(token):
+    """a log record in the format scitrack writes and summary_logs parses; `token` is the command string"""
+    t = "2026-01-01 00:00:00"
+    return "\n".join([f"{t}\tEager\tsystem_details : c13", f"{t}\tEager\tpython : 3.12", f"{t}\tEager\tuser : verif",
+                      f"{t}\tEager\tcommand_string : {token}"]) + "\n"
+
+
+def log_token(text):
+    for line in (text or "").splitlines():
+        if "command_string : " in line:
+            return line.split("command_string : ", 1)[1]
+    return None
+
+
+def _truncate(real, ops):
+    """index after which a history is no longer compared: FileNotFoundError inside a drop loop (the members already
+    removed depend on the directory listing order).  A FileNotFoundError of an identifier with a directory part, or of
+    drop_not_completed() on a missing directory, is not of that kind."""
+    for i, (r, op) in enumerate(zip(real, ops)):
         if isinstance(r["r"], dict) and r["r"]["err"] == "FileNotFoundError":
+            if op[0] == "drop" and op[1] == "" and not any(r2.get("d", [True])[0] for r2 in real[max(i - 1, 0) : i]):
+                continue
+            if op[0] in ("nc", "log") or (op[0] == "w" and "/" in op[1]):
+                continue
             return i + 1
     return len(real)
 
@@ -442,6 +491,7 @@ def correspondence(ctx):
         "(sorted member ids, read(), md5, logs) and validate(); spec: Lean dictionary spec vs the Python oracle; "
         "non-trivial = distinct histories with >= 2 state-changing operations"
     )
+    cfg = detect_cfg(ctx)
     _names_stream(ctx, out)
     rng = ctx.subrng("corr")
     n_hist = ctx.budget(110, 4000)
@@ -455,18 +505,21 @@ def correspondence(ctx):
             hist.append((sfx, mode, ops))
         cmd = "dir" if kind == "dir" else "sql"
         model = ctx.driver.batch(
-            [(cmd, dict(sfx=sfx, mode=mode, ops=ops)) for sfx, mode, ops in hist]
+            [(cmd, dict(ro_open=cfg["ro_open"], ro_write=cfg["ro_write"], sfx=sfx, mode=mode, ops=ops)) for sfx, mode, ops in hist]
         )
         for i, ((sfx, mode, ops), mod) in enumerate(zip(hist, model)):
             real = run_real(ctx, kind, f"c{i}", sfx, mode, ops, want_validate=True)
             out["evaluations"] += 1
-            stop = _truncate(real)
+            stop = _truncate(real, ops)
             inp = dict(store=kind, sfx=sfx, mode=mode, ops=ops)
             bad = None
             for j in range(stop):
                 rr, mm = real[j], mod[j]
                 if rr["r"] != mm["r"]:
                     bad = (j, "result", mm["r"], rr["r"])
+                    break
+                if kind == "dir" and rr.get("d") != mm.get("d"):
+                    bad = (j, "existence of not_completed/, logs/", mm.get("d"), rr.get("d"))
                     break
                 if "obs" in rr or "obs" in mm:
                     mo = _model_obs(mm.get("obs"), kind)
@@ -553,6 +606,7 @@ class Oracle:
     def __init__(self, kind, sfx, mode):
         self.kind, self.sfx, self.mode = kind, sfx, mode
         self.c, self.nc, self.logs = {}, {}, {}
+        self.sessions = [None]  # SQLite: one log slot per session (the store keeps ONE log row per connection)
 
     def cname(self, uid):
         return f"{spec_stem(uid)}.{self.sfx}" if self.kind == "dir" else sql_norm("results", uid)
@@ -585,6 +639,7 @@ class Oracle:
             self.nc[self.ncname(op[1])] = op[2]
         elif k == "log":
             self.logs[self.logname(op[1])] = op[2]
+            self.sessions[-1] = [self.logname(op[1]), op[2]]
         elif k == "drop":
             if op[1]:
                 self.nc.pop(self.ncname(op[1]), None)
@@ -592,6 +647,18 @@ class Oracle:
                 self.nc.clear()
         elif k == "reopen":
             self.mode = op[1]
+            self.sessions.append(None)
+
+    def expected_logs(self):
+        """[[member id, content]]: directory store = the dictionary; SQLite store = one record per session that wrote a
+        log (the store's documented design), read() by name returning the first such row"""
+        if self.kind == "dir":
+            return sorted((["logs/" + k, v] for k, v in self.logs.items()), key=_key)
+        rows = [x for x in self.sessions if x]
+        first = {}
+        for n, v in rows:
+            first.setdefault(n, v)
+        return sorted((["logs/" + n, first[n]] for n, _ in rows), key=_key)
 
     def snapshot(self):
         return dict(
@@ -611,7 +678,7 @@ class Oracle:
 # --------------------------------------------------------------------------
 # spec check: the real stores against the oracle, observed after every operation
 # --------------------------------------------------------------------------
-def _classify(kind, sfx, op, res, before, exp, got, oracle_before):
+def _classify(kind, sfx, op, res, before, exp, got, oracle_before, force_parts=None):
     """narrow signature of the first divergence, caused by `op`"""
     k = op[0]
     uid = op[1] if len(op) > 1 and k != "reopen" else ""
@@ -622,7 +689,9 @@ def _classify(kind, sfx, op, res, before, exp, got, oracle_before):
         return [m[0] for m in o[t]]
 
     parts = []
-    for t in ("c", "nc"):
+    for t in ("c", "nc", "logs"):
+        if t not in exp or t not in got:
+            continue
         en, gn = names(exp, t), names(got, t)
         if len(set(gn)) != len(gn):
             parts.append(f"{t}-duplicate-member")
@@ -656,11 +725,13 @@ def _classify(kind, sfx, op, res, before, exp, got, oracle_before):
             else:
                 for m in got[t]:
                     e = em[m[0]]
-                    if m[2] != e[2]:
+                    if len(m) > 2 and m[2] != e[2]:
                         parts.append(f"{t}-md5-" + ("missing" if m[2] is None else "wrong"))
                         break
     if not parts:
         parts = ["other"]
+    if force_parts:
+        parts = list(force_parts)
     # context features
     if k == "w" and uid:
         o = oracle_before
@@ -678,9 +749,9 @@ def _classify(kind, sfx, op, res, before, exp, got, oracle_before):
         o = oracle_before
         if o.cname(uid) in o.c:
             feats.append("completed-exists")
-    if oracle_before.mode == "r" and k in ("w", "nc", "log", "drop"):
+    if oracle_before.mode == "r" and k in ("w", "nc", "log", "drop") and not force_parts:
         parts = ["readonly-mutated"]
-    if oracle_before.mode == "a" and k in ("w", "nc"):
+    if oracle_before.mode == "a" and k in ("w", "nc", "log"):
         feats.append("mode-a")
     if isinstance(res, dict):
         feats.append("raised-" + res["err"])
@@ -692,6 +763,7 @@ def _classify(kind, sfx, op, res, before, exp, got, oracle_before):
 def _copy_oracle(o):
     n = Oracle(o.kind, o.sfx, o.mode)
     n.c, n.nc, n.logs = dict(o.c), dict(o.nc), dict(o.logs)
+    n.sessions = [None if x is None else list(x) for x in o.sessions]
     return n
 
 
@@ -706,6 +778,8 @@ def check_history(ctx, kind, sfx, mode, ops, tag="h", stop_at_first=True):
     stats = dict(ops=0, rejected=0)
     try:
         prev = None
+        unexpected = False
+        prev_dirs = store.dirs() if kind == "dir" else None
         last_op, last_res, last_before = None, None, _copy_oracle(o)
         for i, op in enumerate(ops):
             r = store.apply(op)
@@ -716,6 +790,16 @@ def check_history(ctx, kind, sfx, mode, ops, tag="h", stop_at_first=True):
                 before = _copy_oracle(o)
                 spec_rej = o.rejects(op)
                 excused = False
+                inp_now = dict(store=kind, sfx=sfx, mode=mode, ops=ops[: i + 1])
+                # (c) a read-only store creates no directory
+                if kind == "dir":
+                    dirs_now = store.dirs()
+                    ro_op = (o.mode == "r" and op[0] in ("w", "nc", "log", "drop")) or (op[0] == "reopen" and op[1] == "r")
+                    if ro_op and dirs_now != prev_dirs:
+                        return dict(what=f"{op[:2]} on / as a read-only store changed which sub-directories exist", input=inp_now,
+                                    expected=dict(not_completed=prev_dirs[0], logs=prev_dirs[1]), got=dict(not_completed=dirs_now[0], logs=dirs_now[1]),
+                                    sig=f"dir:{op[0]}:readonly-created-directory:"), stats
+                    prev_dirs = dirs_now
                 if kind == "sql":
                     if op[0] == "reopen":
                         fresh_w = op[1] == "w" and locked
@@ -732,6 +816,19 @@ def check_history(ctx, kind, sfx, mode, ops, tag="h", stop_at_first=True):
                     stats["rejected"] += 1
                 else:
                     o.apply(op)
+                # (a) which calls raise, and what: a rejected call raises IOError (SQLite: drop on a read-only db raises
+                # sqlite3.OperationalError); an accepted call does not raise (judged at the next observation)
+                if spec_rej and not excused:
+                    want_cls = "OperationalError" if kind == "sql" and op[0] == "drop" else "OSError"
+                    if not raised:
+                        sig = _classify(kind, sfx, op, res, None, {}, {}, before, force_parts=["rejected-without-raising"])
+                        return dict(what=f"{op[:2]} must be rejected (mode {before.mode}) but returned {res!r} without raising", input=inp_now,
+                                    expected=want_cls, got=res, sig=sig), stats
+                    if res["err"] != want_cls:
+                        sig = _classify(kind, sfx, op, res, None, {}, {}, before, force_parts=["wrong-exception-class"])
+                        return dict(what=f"{op[:2]} is rejected with {res['err']} instead of {want_cls}", input=inp_now,
+                                    expected=want_cls, got=res, sig=sig), stats
+                unexpected = raised and not spec_rej and not excused and op[0] in ("w", "nc", "log", "drop")
                 last_op, last_res, last_before = op, res, before
                 continue
             # observation
@@ -748,7 +845,32 @@ def check_history(ctx, kind, sfx, mode, ops, tag="h", stop_at_first=True):
                 return dict(
                     what=f"after {op0} the store differs from the dictionary model",
                     input=dict(store=kind, sfx=sfx, mode=mode, ops=ops[: i + 1]), expected=exp, got=got, sig=sig), stats
+            # (b) log records
+            got_l, exp_l = dict(logs=r["obs"]["logs"]), dict(logs=o.expected_logs())
+            if got_l != exp_l:
+                op0 = last_op or ["obs"]
+                sig = _classify(kind, sfx, op0, last_res, None, exp_l, got_l, last_before)
+                return dict(what=f"after {op0[:2]} the log records differ from the dictionary model",
+                            input=dict(store=kind, sfx=sfx, mode=mode, ops=ops[: i + 1]), expected=exp_l, got=got_l, sig=sig), stats
+            if unexpected:
+                sig = _classify(kind, sfx, last_op, last_res, None, {}, {}, last_before, force_parts=["unexpected-raise"])
+                return dict(what=f"{last_op[:2]} raised {last_res['err']} although the dictionary model accepts it (state unchanged / as expected)",
+                            input=dict(store=kind, sfx=sfx, mode=mode, ops=ops[: i + 1]), expected="no exception", got=last_res, sig=sig), stats
             prev = got
+        # summary_logs agrees with the log records
+        el = o.expected_logs()
+        if el and all(log_token(v) for _, v in el):
+            try:
+                t = store.ds.summary_logs
+                rows = sorted([str(r[1]), str(r[4])] for r in t.to_list())
+                want = sorted([n, log_token(v)] for n, v in el)
+                if rows != want:
+                    return dict(what="summary_logs differs from the log records", input=dict(store=kind, sfx=sfx, mode=mode, ops=ops),
+                                expected=want, got=rows, sig=f"{kind}:summary_logs:differs"), stats
+            except Exception as e:  # noqa: BLE001
+                if not (kind == "sql" and type(e).__name__ in ("OSError", "OperationalError")):
+                    return dict(what="summary_logs raised", input=dict(store=kind, sfx=sfx, mode=mode, ops=ops),
+                                expected="table", got=_err(e), sig=f"{kind}:summary_logs:raised-{type(e).__name__}"), stats
         # a freshly re-opened store shows the same records
         try:
             fo = store.fresh_obs()
@@ -838,7 +960,7 @@ def spec_check(ctx, budget):
         kind = "dir" if rng.random() < 0.65 else "sql"
         sfx = rng.choice(SFXS) if kind == "dir" else "fasta"
         pool = prop_ids(sfx) + (dot_family(sfx) if rng.random() < 0.5 else []) + (spec_odd_ids(sfx) if rng.random() < 0.25 else [])
-        mode, ops = gen_history(rng, kind, sfx, pool, nmax=40 if i % 3 else 12)
+        mode, ops = gen_history(rng, kind, sfx, pool, nmax=40 if i % 3 else 12, subdirs=0.02, log_ids=["run.log", "l2", "l3.log"])
         cases.append((kind, sfx, mode, [op for op in ops if op[0] != "obs"]))
     seen_sigs = {}
     # which histories satisfy the hypotheses (hyg, safeHist) of store_refines_dict_partial
@@ -858,7 +980,9 @@ def spec_check(ctx, budget):
         out["evaluations"] += 1
         if i in covered:
             bump(out, "dir_history_satisfies_theorem_hypotheses", covered[i])
-            if covered[i] and f is not None and any(a.split(":")[2] != "c-md5-missing" for a in sig_atoms(f["sig"])):
+            # predicted by the theorems: a completed md5 missing after retiring (lostRun), FileNotFoundError of drop-all without directory (expectRes)
+            predicted = ("c-md5-missing", "unexpected-raise") if f is not None and f["sig"].startswith("dir:drop:unexpected-raise:raised-FileNotFoundError") else ("c-md5-missing",)
+            if covered[i] and f is not None and any(a.split(":")[2] not in predicted for a in sig_atoms(f["sig"])):
                 # theorem + model say this history refines the dictionary (up to a missing completed md5)
                 add_failure(out, "corr", "hypotheses of store_refines_dict_partial hold for this history but the real store differs from the dictionary",
                             f["input"], f["expected"], f["got"], confirmed=False, sig="theorem-hypotheses-vs-real:" + f["sig"])
